@@ -22,8 +22,9 @@ from ..drive import procs as D
 
 PID = "C33"
 INVS = ["ScenarioOK", "C33_Located", "C33_Nchar", "C33_StopsAtFault", "C13_Order"]
-SUPPLIED = [(l, c, n, f) for l in (0, 77) for c in (0, 88) for n in (0, 99) for f in ("", "supplied.x")
-            if (l, c, n, f) != (0, 0, 0, "")]
+# which location fields the raised TextXError carries (at least one)
+HAS = [(l, c, n, f) for l in (False, True) for c in (False, True) for n in (False, True) for f in (False, True)
+       if l or c or n or f]
 
 
 def _mc(rep, max_objs):
@@ -40,42 +41,58 @@ def _sites(case, rng, k):
     for i, o in enumerate(objs, 1):
         decl = o["kind"] if o["parent"] == 0 else \
             dict((s[0], s[2]) for s in D.SLOTS[objs[o["parent"] - 1]["kind"]])[o["slot"]]
-        for r in sorted({o["kind"], decl}):
-            sites.append(dict(proc="obj", obj=i, rule=r, mfile=o["file"], mline=0, mcol=0, mtext=""))
-    ms = [dict(proc="match", obj=0, rule=m["rule"], mfile=m["file"], mline=m["line"], mcol=m["col"], mtext=m["text"])
-          for m in case["matches"] if m["unique"]]
+        # a plain value is seen by the processor of the declared (abstract) rule only
+        for r in sorted({decl} if o["kind"] == "Plain" else {o["kind"], decl}):
+            sites.append(dict(proc="obj", obj=i, rule=r, mfile=o["file"], mline=0, mcol=0, mtext="", mocc=0))
+    # a match is the mocc-th match of its rule with that text: names, every part of a (possibly
+    # qualified) reference, whole references, plain Tag values
+    ms = [dict(proc="match", obj=0, rule=m["rule"], mfile=m["file"], mline=m["line"], mcol=m["col"], mtext=m["text"],
+               mocc=m["occ"]) for m in case["matches"]]
+    plain = [x for x in sites if objs[x["obj"] - 1]["kind"] == "Plain"]
+    inner = [x for x in ms if x["rule"] == "ID" and x["mocc"] > 1]      # mostly parts of references
     rng.shuffle(sites)
     rng.shuffle(ms)
+    rng.shuffle(inner)
     half = max(1, k // 2)
-    return sites[:k - min(half, len(ms))] + ms[:half]
+    chosen = sites[:k - min(half, len(ms))] + (inner[:1] + ms)[:half]
+    return chosen + plain[:1]
 
 
 def _rows(rng, one_file):
-    sup = rng.choice(SUPPLIED)
+    has = rng.choice(HAS)
+    falsy = rng.random() < 0.4          # supplied values that are falsy in Python are values all the same
+    vals = (0, 0, 0, "") if falsy else (77, 88, 99, "supplied.x")
     for exc in ("txnoloc", "txsome", "other"):
         for wrap in (False, True):
             for from_file in ((False, True) if one_file else (True,)):
-                s = sup if exc == "txsome" else (0, 0, 0, "")
-                yield dict(exc=exc, wrap=wrap, sline=s[0], scol=s[1], snchar=s[2], sfile=s[3]), from_file
+                h = has if exc == "txsome" else (False, False, False, False)
+                yield dict(exc=exc, wrap=wrap, hline=h[0], hcol=h[1], hnchar=h[2], hfile=h[3],
+                           sline=vals[0], scol=vals[1], snchar=vals[2], sfile=vals[3]), from_file
 
 
-def _observe(case, work, fault):
-    obs = D.load(case, work, D.RULES, [], fault=fault)
+def _observe(case, work, fault, grammar_file=False):
+    obs = D.load(case, work, D.RULES, [], fault=fault, grammar_file=grammar_file)
     if obs["ok"]:
-        return dict(cls="-", filename="", line=0, col=0, nchar=0)
+        return dict(cls="-", filename=D.NONE_FILE, line=D.NONE_NUM, col=D.NONE_NUM, nchar=D.NONE_NUM)
     return obs["err"]
 
 
 def _norm(observed, expected):
+    """Fields the module marks as not judged (nchar of match-processor errors, the location of a
+    plain value) are taken out of the comparison."""
     o = dict(observed)
-    if expected.get("nchar") == -1:
-        o["nchar"] = -1          # the property says nothing about nchar of match processors
+    for k in ("line", "col", "nchar"):
+        if expected.get(k) == -1:
+            o[k] = -1
+    if expected.get("filename") == "<not judged>":
+        o["filename"] = "<not judged>"
     return o
 
 
-def _stored(case, fault):
+def _stored(case, fault, grammar_file=False):
     return dict(rendered=dict(objs=case["objs"], refs=case["refs"], files=case["files"],
-                              texts={str(k): v for k, v in case["texts"].items()}, matches=[]), fault=fault)
+                              texts={str(k): v for k, v in case["texts"].items()}, matches=[]), fault=fault,
+                grammar_file=grammar_file)
 
 
 def run(rep):
@@ -94,8 +111,11 @@ def run(rep):
         "is written",
         "every rule has a recording object processor, so both the own-rule and the declared-rule processor of any "
         "object are called; the failing processor raises TextXSemanticError (a TextXError) or ValueError",
-        "a match site is an ID or QName occurrence whose text occurs once in all files, so the failing match is "
-        "identified by its text",
+        "a match site is an ID, QName or Tag match identified by its text and its occurrence number in processing "
+        "order (files in load order, textual order within a file); parts of a qualified reference are ID matches "
+        "located at their own start; every third load takes the grammar from a file",
+        "supplied fields may be falsy values (0, ''): they are values, not 'no location'; an error raised for a plain "
+        "value (match-rule alternative of an abstract rule) has no location to be judged",
         "nchar of errors from match-rule processors is not judged (the property speaks of object processors); "
         "a non-TextXError without textxerror_wrap is expected to propagate unchanged",
         "filename is compared by base name; a string load has no file name",
@@ -121,21 +141,22 @@ def run(rep):
                     fault = dict(D.NO_FAULT, on=True, **row)
                     fault.update(site)
                     case["procs"], case["repl"], case["fault"] = list(D.RULES), [], fault
-                    batch.append((case, fault, _observe(case, work, fault)))
+                    gfile = len(batch) % 3 == 0          # every third load: the grammar comes from a file
+                    batch.append((case, fault, _observe(case, work, fault, gfile), gfile))
     finally:
         shutil.rmtree(work, ignore_errors=True)
     devsets = [[]] + [[d] for d in sorted(set(devs.values()))]
-    cases = [D.spec_view(c, id=str(i), want="c33", devsets=devsets) for i, (c, _, _) in enumerate(batch)]
+    cases = [D.spec_view(c, id=str(i), want="c33", devsets=devsets) for i, (c, _, _, _) in enumerate(batch)]
     res, st = tlc.oracle("OracleLoaderProc", cases)
     rep.add_oracle("OracleLoaderProc[c33]", st)
-    for i, (case, fault, obs) in enumerate(batch):
+    for i, (case, fault, obs, gfile) in enumerate(batch):
         e = res[str(i)]["res"]
         expected = e[0]
         devexp = {fid: e[1 + sorted(set(devs.values())).index(d)] for fid, d in devs.items()}
         site = case["objs"][fault["obj"] - 1] if fault["proc"] == "obj" else dict(line=fault["mline"], col=fault["mcol"])
         nontrivial = (site["line"], site["col"]) != (1, 1) or fault["exc"] == "txsome"
         o = _norm(obs, expected)
-        common.judge(rep, dict(_stored(case, fault), expected=expected), o, expected,
+        common.judge(rep, dict(_stored(case, fault, gfile), expected=expected), o, expected,
                      {fid: x for fid, x in devexp.items()}, nontrivial=nontrivial,
                      why=f"{fault['proc']} processor of {fault['rule']} "
                          f"({'object ' + str(fault['obj']) if fault['proc'] == 'obj' else repr(fault['mtext'])}) raising "
@@ -155,7 +176,7 @@ def replay(path):
     case["procs"], case["repl"], case["fault"] = list(D.RULES), [], fault
     work = tlc.scratch("vt-c33-")
     try:
-        obs = _observe(case, work, fault)
+        obs = _observe(case, work, fault, c.get("grammar_file", False))
     finally:
         shutil.rmtree(work, ignore_errors=True)
     devs = sorted({f["deviation"] for f in common.open_findings(PID)})
